@@ -4,6 +4,7 @@ use crate::chan::adapt::Flavour;
 use crate::chan::gen::{ConcFamily, ConcProfile};
 use crate::chan::spmc::SpmcFamily;
 use crate::chan::topic::TopicFamily;
+use crate::lock::LockFamily;
 use crate::core::batch::{Family, Violation};
 use crate::core::check::{lane, CheckSpec};
 use serde_json::Value;
@@ -134,6 +135,22 @@ pub fn check_spec(id: &str) -> Option<CheckSpec> {
       assumptions,
       notes: vec!["papaya::HashMap runs uninstrumented (atomically between scheduling points)".into()],
     },
+    "C10" => CheckSpec {
+      property: id.into(),
+      level: "exploration",
+      lanes: vec![
+        lane("lock/faults", LockFamily { faults: true, cancel: true, starve: false }, 300_000, 9_000_000),
+        lane("lock/no-faults", LockFamily { faults: false, cancel: true, starve: false }, 150_000, 4_500_000),
+        lane("lock/no-cancel", LockFamily { faults: true, cancel: false, starve: false }, 150_000, 4_500_000),
+        lane("lock/writer-starvation", LockFamily { faults: false, cancel: false, starve: true }, 300, 5_000),
+      ],
+      assumptions: vec![
+        "shuttle executes every atomic as SeqCst: a change that only weakens a memory ordering is invisible".into(),
+        "bounds: 2-4 threads x <=5 acquisitions, 0-3 yields per critical section".into(),
+        "writer non-starvation is decided under a targeted adversarial scheduler mode (readers have absolute priority once the writer has queued); the bound is 100 read sections per reader thread".into(),
+      ],
+      notes: vec![],
+    },
     _ => return None,
   };
   Some(spec)
@@ -165,6 +182,7 @@ pub fn replay(path: &str) -> i32 {
     "CH-CONC" => run_family_replay(conc("replay", |_| {}), &v),
     "CH-SPMC" => run_family_replay(spmc(true, 2, true, true), &v),
     "CH-TOPIC" => run_family_replay(topic(true, 2, true, true, true), &v),
+    "LOCK" => run_family_replay(LockFamily { faults: true, cancel: true, starve: false }, &v),
     _ => Err(format!("unknown family {fam}")),
   };
   match res {
